@@ -64,7 +64,9 @@ fn run_case(_kind: &str, idx: u64, rng: &mut Rng, mon: &mut Mon, _tier: Tier) {
     let m = sing_measures(&rp, &q);
     let nonsing = m.wrist.min(m.elbow).min(m.shoulder) >= 1e-3;
     let reach = rp.reach() + layers.iter().map(|l| match l { Layer::Tool(f) | Layer::Base(f) | Layer::Frame(f) => norm(f.p), _ => 0.0 }).sum::<f64>();
-    let ptol = 1e-6 + 1e-9 + 1e-12 * reach;
+    // (the 5-DOF solvers cross-check the flange position only; behind a tool the axis accuracy acts on its length)
+    let lever: f64 = layers.iter().map(|l| match l { Layer::Tool(f) | Layer::Frame(f) => norm(f.p), _ => 0.0 }).sum();
+    let ptol = 1e-6 * (1.0 + lever) + 1e-9 + 1e-12 * reach;
     let rtol = 1e-6 + 1e-9;
     mon.count(&format!("stack.{}", sname));
     mon.count(if rp.dof == 5 { "robots_dof5" } else { "robots_dof6" });
@@ -85,7 +87,8 @@ fn run_case(_kind: &str, idx: u64, rng: &mut Rng, mon: &mut Mon, _tier: Tier) {
         let cell = format!("{}:{}:{}", if rp.dof == 5 { "dof5" } else { "dof6" }, sname, e.name());
         mon.count(&format!("cell.{}", cell));
         if sols.is_empty() {
-            if rp.dof == 5 {
+            // (at an exact shoulder / elbow singularity the closed form has no finite answer for any dof)
+            if rp.dof == 5 && m.elbow.min(m.shoulder) >= 1e-6 {
                 mon.violation(&format!("empty-answer:dof5:{}:{}", sname, e.name()), "a 5-DOF robot returned nothing for a pose produced by its own forward kinematics", detail("non-empty", json!({})));
             } else if nonsing {
                 mon.violation(&format!("empty-answer:dof6:{}:{}", sname, e.name()), "5-DOF entry point returned nothing for a reachable non-singular pose", detail("non-empty", json!({})));
